@@ -382,7 +382,7 @@ PROPS["C17"] = dict(
 
 PROPS["C05"] = dict(
     suites=["c05", "c08c", "c08d"],
-    lean_modules=["ServlinVerif.Props.C05"],
+    lean_modules=["ServlinVerif.Props.C05", "ServlinVerif.Props.C05Seq"],
     audit="Audit/C05.lean",
     rule="a real HttpConn on a loopback socket whose client pre-wrote its script and half-closed: ALL operation sequences up to depth 3 (4 in "
          "thorough) over 14 operations {read_request, read_body_to_vec, read_body_to_file(0|len-1|len|big), write_http_continue, "
